@@ -7,7 +7,8 @@ package genbank
 // verif:bound C01 records laid out by the harness's independent writer (standard flat-file columns): locus names of 2, 3 or 5 symbolic characters (lower-case letters other than g m o r t u v, last character also a digit), sequence lengths 4, 12, 61 (one, two digits; crossing an ORIGIN line) with every letter symbolic (a-z), molecule types DNA/mRNA/tRNA/rRNA, linear/circular, DEFINITION on one or two lines and ORGANISM with a taxonomy line (one symbolic word each), 0..1 (quick) / 0..2 (thorough) references with PUBMED and REMARK, optional COMMENT block
 // verif:bound C01 feature tables: none; one feature with one qualifier; a feature without qualifiers followed by another; location text on two and on three lines; a qualifier value wrapped onto a continuation line; a value filling its line so that only the closing quote wraps; two features with two qualifiers; a 15-character feature key with a wrapped /translation followed by a wrapped /note. Qualifier values 2 (quick) / 3 (thorough) symbolic bytes over printable ASCII without the double quote (so '/', '=' and inner spaces are included; leading/trailing spaces excluded)
 // verif:bound C01 multi-record clause: ParseMulti on two records with and without final newline, ParseFlat behind a 10-line header; each result compared with parsing that record alone
-// verif:bound C01 outside the claim: sequences of 10^5 letters, 40 features, 5 records, values long enough to wrap more than once, Read* wrappers and gzip
+// verif:bound C01 long-record clause: a three-record file whose middle record has 60000 (quick) / 52000..140000 (thorough) ORIGIN letters (concrete body, symbolic ends)
+// verif:bound C01 outside the claim: 40 features, 5 records, values long enough to wrap more than once, Read* wrappers and gzip
 
 import "github.com/TimothyStiles/poly"
 
@@ -123,6 +124,37 @@ func Harness_C01_MultiRecord() {
 		vAssert(c01SameResult(got[1], alone2), "each-result-equals-parsing-the-record-alone")
 	}
 	vCover("C01 two records without final newline", !final)
+}
+
+// a multi-record file with one long record (well beyond any fixed buffer size)
+func Harness_C01_LongRecord() {
+	n := []int{60000}[0]
+	if vTier(0, 1) == 1 {
+		n = []int{52000, 60000, 70000, 140000}[vChoice(4)]
+	}
+	body := make([]byte, n)
+	for i := range body {
+		body[i] = "acgtgca"[i%7]
+	}
+	small1 := gRec{name: "first", mol: "DNA", topo: "linear", div: "SYN", date: "12-APR-2021", def: "one.", acc: "A1", ver: "A1.1", kw: ".", src: "s", org: "o", seq: vBytes(4, c01Letters)}
+	long := gRec{name: "long" + vBytes(1, c01NameLast), mol: "DNA", topo: "circular", div: "SYN", date: "12-APR-2021", def: "long one.", acc: "A2", ver: "A2.1", kw: ".", src: "s", org: "o",
+		feats: []gFeat{{key: "gene", locLines: []string{"1..3"}, quals: []gQual{{"gene", c01Value(2)}}}},
+		seq:   vBytes(2, c01Letters) + string(body[2:n-2]) + vBytes(2, c01Letters)}
+	small2 := gRec{name: "third", mol: "mRNA", topo: "linear", div: "SYN", date: "12-APR-2021", def: "three.", acc: "A3", ver: "A3.1", kw: ".", src: "s", org: "o", seq: vBytes(5, c01Letters)}
+	final := vChoice(2) == 1
+	text := small1.write(true) + long.write(true) + small2.write(final)
+	var got []poly.Sequence
+	panicked := vPanics(func() { got = ParseMulti([]byte(text)) })
+	vAssert(!panicked, "multi-parse-does-not-panic")
+	if panicked {
+		return
+	}
+	vAssert(len(got) == 3, "k-records-give-k-results")
+	if len(got) == 3 {
+		c01Check(small1, got[0], "first-")
+		c01Check(long, got[1], "long-")
+		c01Check(small2, got[2], "third-")
+	}
 }
 
 func Selftest_C01_Vectors() {
